@@ -518,6 +518,21 @@ pub fn c14_case(ctx: &mut Ctx, rng: &mut Rng) {
     ctx.bucket("training_succeeded");
     let user_csv = if bundled { std::fs::read_to_string("/repo/vibrato/src/tests/resources/user.csv").unwrap_or_default() } else { ts.user_csv() };
     let with_user = !user_csv.is_empty();
+    if rng.chance(0.3) {
+        // as the `dictgen` tool does: the model is stored and read back before anything else happens to it
+        let mut bytes = vec![];
+        let r = guarded(|| model.write_model(&mut bytes).map_err(|e| e.to_string())).and_then(|r| r).and_then(|_| guarded(|| Model::read_model(bytes.as_slice()).map_err(|e| e.to_string())).and_then(|r| r));
+        match r {
+            Ok(m2) => {
+                model = m2;
+                ctx.bucket("model_stored_and_read_back_first");
+            }
+            Err(e) => {
+                ctx.note(format!("model round trip failed (C15's business): {e}"));
+                return;
+            }
+        }
+    }
     if with_user && rng.chance(0.4) {
         // an export before the user lexicon is registered must not leak into the later export
         if generate(&mut model).is_ok() {
@@ -543,6 +558,16 @@ pub fn c14_case(ctx: &mut Ctx, rng: &mut Rng) {
             return;
         }
     };
+    // the ids written to the files name merged classes of feature ids: a feature id must stand for one string
+    for (side, table) in [("left", &view.left_feature_ids), ("right", &view.right_feature_ids)] {
+        let mut seen: HashMap<u32, &String> = HashMap::new();
+        for (string, id) in table.iter() {
+            if let Some(other) = seen.insert(*id, string) {
+                ctx.violation("feature_id_stands_for_two_strings", "C14:feature_id_stands_for_two_strings", format!("{side}-context feature id {id} is assigned to both {:?} and {:?}, so words with different features are merged into one connection class", other, string), desc.clone());
+                return;
+            }
+        }
+    }
     let files = match generate(&mut model) {
         Ok(f) => f,
         Err(e) => {
